@@ -54,13 +54,13 @@ def shards(tier, seed):
     from .. import concengine as C
     scns = []
     binders = [P.st("p1", "X"), P.st("p1", "Y"), P.tag("p1", "X"), P.tag("p1", "Y")]
-    others = [P.tag("p2", "X"), P.st("p2", "Y"), P.dele("p2"), P.tag("p3", "Y")]
+    others = [P.tag("p2", "X"), P.st("p2", "Y"), P.dele("p2"), P.tag("p1.v2", "Y")]
     for sname in ("empty", "X-unreferenced", "p1,p2->X"):
         for i, a in enumerate(binders):
             for b in binders[i:]:
                 for o in others:
                     scns.append(C.Scenario(f"{sname}|{P.call_name(a)}||{P.call_name(b)}||{P.call_name(o)}",
-                                           P.OBJECT_STARTS[sname], [a, b, o], P.SPEC, pids=["p1", "p2", "p3"],
+                                           P.OBJECT_STARTS[sname], [a, b, o], P.SPEC, pids=["p1", "p2", "p1.v2"],
                                            start_class=sname).to_json())
     rng = random.Random(seed * 1000 + 33)
     rng.shuffle(scns)
